@@ -2,8 +2,9 @@
    and C11 (instruction cache).  TAGS ONLY: the reference holds no data.  The replacement
    policy functions [pol_init]/[pol_access]/[pol_victim] are reused from Model/Cache.v; their
    correctness (true LRU order, PLRU tree) is property C10.
-   The last section defines how a model directory is read as a reference directory. *)
-From ArchSim Require Import Model.Base Model.Cache.
+   The last sections define how a model directory is read as a reference directory, the
+   invariants the statements assume, and how histories of model operations are run. *)
+From ArchSim Require Import Model.Base Model.Cache Model.RV.
 Open Scope Z_scope.
 
 (** * Geometry: tag and set index of an address (plain arithmetic, no bit operations) *)
@@ -116,3 +117,96 @@ Definition tags_of (d : dcache) : rdir := abs_dir (dc d).
 Definition counters_of (d : dcache) : counters :=
   {| c_hits := hits d; c_accesses := accesses d; c_lasthit := lasthit d |}.
 Definition ref_of (d : dcache) : rcache := {| r_dir := tags_of d; r_cnt := counters_of d |}.
+
+(** * Invariant of a model cache (any value type) *)
+Section Invariant.
+  Context {T : Type}.
+  (* LRU: the order list is a duplicate-free enumeration of the ways 0 .. n-1.
+     PLRU: the tree was built for the configured associativity, which is a power of two;
+     nothing is required of the bit array. *)
+  Definition pol_wf (n : Z) (p : pol) : Prop :=
+    match p with
+    | LRU o => NoDup o /\ forall x, In x o <-> 0 <= x < n
+    | PLRU a _ => a = n /\ exists k : nat, n = 2 ^ Z.of_nat k
+    end.
+  Definition set_wf (g : ccfg) (s : cset T) : Prop :=
+    length (blocks s) = Z.to_nat (assoc g) /\ pol_wf (assoc g) (policy s).
+  (* as many sets as index values, [assoc] ways each, policies well formed; nothing about
+     tags, data, dirty bits or the lower memory *)
+  Definition CInv (c : cache T) : Prop :=
+    0 <= ibits (cfg c) /\ 0 <= bbits (cfg c) /\ 1 <= assoc (cfg c) /\
+    length (sets c) = Z.to_nat (2 ^ ibits (cfg c)) /\
+    Forall (set_wf (cfg c)) (sets c).
+End Invariant.
+
+Definition DInv (d : dcache) : Prop := CInv (dc d).
+
+(** * Histories of data-cache operations on the model *)
+Inductive dop :=
+| DRead (nbits a : Z) (counted : bool)
+| DWrite (nbits a v : Z) (direct : bool).
+Definition acc_of (o : dop) : access :=
+  match o with DRead _ a counted => ARead a counted | DWrite _ a _ direct => AWrite a direct end.
+
+(* one operation: (accepted?, new state, cycle penalty) *)
+Definition dc_step (d : dcache) (o : dop) : bool * dcache * Z :=
+  match o with
+  | DRead nbits a counted =>
+      let '(r, d', p) := dc_read d nbits a counted in
+      (match r with Ok _ => true | Err _ => false end, d', p)
+  | DWrite nbits a v direct =>
+      let '(e, d', p) := dc_write d nbits a v direct in
+      (match e with None => true | Some _ => false end, d', p)
+  end.
+
+(* counters after, and penalty of, every operation *)
+Fixpoint dc_run (d : dcache) (os : list dop) : list (counters * Z) :=
+  match os with
+  | [] => []
+  | o :: t => let '(_, d', p) := dc_step d o in (counters_of d', p) :: dc_run d' t
+  end.
+Fixpoint dc_after (d : dcache) (os : list dop) : dcache :=
+  match os with [] => d | o :: t => dc_after (snd (fst (dc_step d o))) t end.
+Fixpoint all_accepted (d : dcache) (os : list dop) : Prop :=
+  match os with
+  | [] => True
+  | o :: t => fst (fst (dc_step d o)) = true /\ all_accepted (snd (fst (dc_step d o))) t
+  end.
+
+(** * Instruction cache *)
+Definition icounters_of (c : icache) : counters :=
+  {| c_hits := ihits c; c_accesses := iaccesses c; c_lasthit := ilasthit c |}.
+Definition iref_of (c : icache) : rcache := {| r_dir := abs_dir (ic c); r_cnt := icounters_of c |}.
+
+(* first byte address of the block with this tag in this set *)
+Definition block_base (g : ccfg) (tag idx : Z) : Z := (tag * 2 ^ ibits g + idx) * 2 ^ (bbits g + 2).
+
+(* every valid block holds exactly the instructions (or empty slots) of the program at its
+   block address, and its block address is the one its tag and set index denote *)
+Definition IInv (im : imem) : Prop :=
+  match icc im with
+  | None => True
+  | Some c =>
+      let g := cfg (ic c) in
+      0 <= ibits g /\ 0 <= bbits g /\
+      forall (i : nat) s b, nth_error (sets (ic c)) i = Some s -> In b (blocks s) -> valid b = true ->
+        baddr b = block_base g (btag b) (Z.of_nat i) /\
+        vals b = iread_block (prog im) (baddr b) (Z.to_nat (2 ^ bbits g))
+  end.
+
+(* fetch a list of addresses: per fetch (instruction returned, cycle penalty) *)
+Fixpoint im_run (im : imem) (addrs : list Z) : list (option instr * Z) :=
+  match addrs with
+  | [] => []
+  | a :: t => let '(i, im', p) := im_read im a in (i, p) :: im_run im' t
+  end.
+Fixpoint im_after (im : imem) (addrs : list Z) : imem :=
+  match addrs with [] => im | a :: t => im_after (snd (fst (im_read im a))) t end.
+(* instruction-cache counters after every fetch (only meaningful with a cache) *)
+Fixpoint im_counters (im : imem) (addrs : list Z) : list counters :=
+  match addrs with
+  | [] => []
+  | a :: t =>
+      let im' := snd (fst (im_read im a)) in
+      match icc im' with Some c => icounters_of c | None => counters0 end :: im_counters im' t
+  end.
